@@ -100,7 +100,22 @@ def main():
                 elif what == "dom_heuristic":
                     import nucs.heuristics.heuristics as H
 
-                    custom.setdefault("dom_h", []).append(H.register_dom_heuristic(H.max_value_dom_heuristic))
+                    flavour = op.get("flavour", 0)
+                    if flavour == 0:
+                        f = H.max_value_dom_heuristic
+                    else:
+                        # two DIFFERENT functions made by one factory (same module, same qualified name)
+                        def make_dom_heuristic(use_max):
+                            @njit(cache=False)
+                            def factory_dom_heuristic(params, stack, ne, dus, top, dom_idx):
+                                if use_max:
+                                    return H.max_value_dom_heuristic(params, stack, ne, dus, top, dom_idx)
+                                return H.min_value_dom_heuristic(params, stack, ne, dus, top, dom_idx)
+
+                            return factory_dom_heuristic
+
+                        f = make_dom_heuristic(flavour == 2)
+                    custom.setdefault("dom_h", []).append(H.register_dom_heuristic(f))
                 elif what == "var_heuristic":
                     import nucs.heuristics.heuristics as H
 
@@ -132,7 +147,7 @@ def main():
                 if op.get("with_heuristics", True) and custom.get("cons"):
                     kw["consistency_alg_idx"] = custom["cons"][-1]
                 s = BacktrackSolver(p, log_level="ERROR", **kw)
-                obs = {"solutions": [sol(x) for x in s.find_all()], "stats": stats(s), "registered": sorted(custom)}
+                obs = {"solutions": [sol(x) for x in s.find_all()], "stats": stats(s)}
             elif kind == "example":
                 name = op["name"]
                 from nucs.solvers.backtrack_solver import BacktrackSolver
